@@ -867,9 +867,9 @@ def refusal_reason(o, module=None):
     return None
 
 
-def c15_refuse(rep, W, rule="C15.REFUSE"):
+def c15_refuse(rep, W, rule="C15.REFUSE", modules=None):
     floors = {"add_version": 3, "add_snapshot": 3, "get_child_version": 1, "get_snapshot": 1}   # content type, client id, + body refusals (possibly inside a helper)
-    for module in WD.HANDLER_MODULES:
+    for module in (modules or WD.HANDLER_MODULES):
         body, g, opbb, opterm, outs = handler_outcomes(W, module)
         fn = S.short_fn(body)
         pre_sites = {}
@@ -1317,41 +1317,40 @@ def c16(rep, W, rule="C16"):
         return
     l, c, h = la[0], ca[0], ha[0]
     parsed = None
+    FORB = "actix_web::error::internal::ErrorForbidden"
+    is403 = lambda t_: any(x[0] == "call" and x[1] == FORB for x in P.walk(t_))   # noqa: E731  (returned directly, or propagated by `?` out of a spliced helper)
+    tsa = [a for a in gh.atoms if a[0] == "VARIANT" and a[1][0] == "call" and a[1][1].endswith("HeaderValue::to_str")]
+    psa = [a for a in gh.atoms if a[0] == "VARIANT" and a[1][0] == "call" and a[1][1].endswith("parse_str")]
+    n403 = nref = 0
+    for site, rt, val, kind in S.exit_kinds(W, hb, lambda t_: "err" if S.is_error_exit(t_) else "ok"):
+        if kind != "err":
+            continue
+        one = lambda a_, v_: val.get(a_) == frozenset([v_])     # noqa: E731
+        if is403(rt):
+            n403 += 1
+            rep.ob(rule + ".HELPER", (fn, "forbidden-iff-unlisted"), one(l, "ok") and one(c, False),
+                   "403 is returned exactly under allow-list present and id not contained; path condition: %s" % G.show_val(val)[:200], where(hb, line=S.exit_line(hb, site)))
+        else:
+            # "with no list every well-formed client id is served / listed clients are served": the only refusals other than
+            # the 403 are for a header that is absent, not text, or not a UUID -- no further condition on a well-formed id
+            nref += 1
+            rep.ob(rule + ".HELPER", (fn, "refused-only-if-malformed"), bool(psa) and (one(h, "err") or any(one(a_, "err") for a_ in tsa + psa)),
+                   "a refusal other than the 403 is returned only for an absent / non-text / unparsable header; path condition: %s" % G.show_val(val)[:200],
+                   where(hb, line=S.exit_line(hb, site)))
+    rep.floor(rule + ".HELPER", "malformed-header refusals", nref, 1, where(hb))
     for site, term in S.exits(W, hb):
         if S.is_error_exit(term):
-            mm = m(pat.adt("Result", "Err", ("0", call("actix_web::error::internal::ErrorForbidden", ANY))), term)
-            if mm is not None:
-                f = ("and", ("is", l, "ok"), ("is", c, False))
-                rep.ob(rule + ".HELPER", (fn, "forbidden-iff-unlisted"), S.all_vals(gh, site, f),
-                       "403 is returned exactly under allow-list present and id not contained; offending: %s" % S.failing_vals(gh, site, f)[:1], where(hb, line=S.exit_line(hb, site)))
             continue
         mo = m(pat.adt("Result", "Ok", ("0", V("id"))), term)
         parsed = mo["id"] if mo else None
         f = ("and", ("is", h, "ok"), ("or", ("is", l, "err"), ("is", c, True)))
         rep.ob(rule + ".HELPER", (fn, "ok-only-if-listed"), S.all_vals(gh, site, f),
                "Ok is returned only when no allow-list is configured or the id is in it; offending: %s" % S.failing_vals(gh, site, f)[:1], where(hb, line=S.exit_line(hb, site)))
-    # "with no list every well-formed client id is served / listed clients are served": the only refusals other than the 403
-    # are for a header that is absent, not text, or not a UUID -- no further condition on a well-formed id
-    tsa = [a for a in gh.atoms if a[0] == "VARIANT" and a[1][0] == "call" and a[1][1].endswith("HeaderValue::to_str")]
-    psa = [a for a in gh.atoms if a[0] == "VARIANT" and a[1][0] == "call" and a[1][1].endswith("parse_str")]
-    nref = 0
-    for site, term in S.exits(W, hb):
-        if not S.is_error_exit(term) or m(pat.adt("Result", "Err", ("0", call("actix_web::error::internal::ErrorForbidden", ANY))), term) is not None:
-            continue
-        f = ("is", h, "err")
-        for a_ in tsa + psa:
-            f = ("or", f, ("is", a_, "err"))
-        nref += 1
-        rep.ob(rule + ".HELPER", (fn, "refused-only-if-malformed"), bool(psa) and S.all_vals(gh, site, f),
-               "a refusal other than the 403 is returned only for an absent / non-text / unparsable header; offending: %s" % (S.failing_vals(gh, site, f)[:1] if psa else "no parse_str test found"),
-               where(hb, line=S.exit_line(hb, site)))
-    rep.floor(rule + ".HELPER", "malformed-header refusals", nref, 1, where(hb))
     # membership is tested for the parsed id itself, on the configured list
     okm = parsed is not None and c[2][0] == ("ok", l[1]) and c[2][1] == parsed
     rep.ob(rule + ".HELPER", (fn, "membership-of-parsed-id"), okm, "contains(%s, %s); must be (the configured list, the id that is returned)" % (P.show(c[2][0]), P.show(c[2][1])), where(hb))
     # every allow-list-present path decides membership: no path from `list present` to Ok without the contains test (covered by ok-only-if-listed)
-    forb = [1 for site, term in S.exits(W, hb) if m(pat.adt("Result", "Err", ("0", call("actix_web::error::internal::ErrorForbidden", ANY))), term) is not None]
-    rep.floor(rule + ".HELPER", "403 exits", len(forb), 1, where(hb))
+    rep.floor(rule + ".HELPER", "403 exits", n403, 1, where(hb))
     # WIRE
     ctors = []
     for b in W.prog.bodies.values():
